@@ -283,6 +283,11 @@ parse_url_char(enum state s, const char ch)
         return s_req_query_string_start;
       }
 
+      /* A fragment may follow the authority directly (no path, no query). */
+      if (ch == '#') {
+        return s_req_fragment_start;
+      }
+
       if (ch == '@') {
         return s_req_server_with_at;
       }
